@@ -863,19 +863,62 @@ def iterator_collect(ex, st, info, args):
     tgt = generic_args(info['generics'])[0] if info['generics'] else ''
     cell = st.new_cell(it)
     itref = Ref(('C', cell), (), True)
+    outer = type_key(tgt)
+    inner = tgt
+    if outer in ('Result', 'Option'):
+        # collect::<Result<V, E>>() / collect::<Option<V>>(): stop at the first Err / None
+        inner = generic_args(tgt[tgt.find('<'):])[0]
+
+    def build(st2, acc):
+        ik = type_key(inner)
+        if ik == 'String':
+            ex.builtins_alloc(st2, len(acc))
+            chars = []
+            for a in acc:
+                a = ex.read_ref(st2, a) if isinstance(a, Ref) else a
+                if isinstance(a, Int):
+                    chars.append(a)
+                elif isinstance(a, (RString, StrLit)):
+                    cs = string_chars(a) if isinstance(a, RString) else [Int('char', ord(c)) for c in a.s]
+                    if cs is None:
+                        raise ExecError('collect of formatted strings into String')
+                    chars.extend(cs)
+                else:
+                    raise ExecError('collect into String of %r' % (a,))
+            return RString((('chars', tuple(chars)),)) if chars else RString(())
+        if ik == 'Vec':
+            ex.builtins_alloc(st2, len(acc))
+            return Vec(acc)
+        raise ExecError('collect into ' + tgt)
 
     def mk_loop(acc):
         def loop(st2, o):
             if o.variant == 'None':
-                del st2.cells[cell]
-                if type_key(tgt) == 'String':
-                    ex.builtins_alloc(st2, len(acc))
-                    return RString((('chars', tuple(acc)),)) if acc else RString(())
-                if type_key(tgt) == 'Vec':
-                    ex.builtins_alloc(st2, len(acc))
-                    return Vec(acc)
-                raise ExecError('collect into ' + tgt)
-            return iter_next(ex, st2, itref, mk_loop(acc + (o.f[0],)))
+                st2.cells.pop(cell, None)
+                v = build(st2, acc)
+                if outer == 'Result':
+                    return mk_ok(v)
+                if outer == 'Option':
+                    return mk_some(v)
+                return v
+            x = o.f[0]
+            if outer == 'Result':
+                if not isinstance(x, Enum) or x.variant is None:
+                    raise ExecError('collect::<Result<..>> over %r' % (x,))
+                if x.variant == 'Err':
+                    st2.cells.pop(cell, None)
+                    return x
+                x = x.f[0]
+            elif outer == 'Option':
+                if not isinstance(x, Enum):
+                    raise ExecError('collect::<Option<..>> over %r' % (x,))
+                if x.variant is None:
+                    return Choices([(c_, (lambda s3, ov=ov: loop(s3, mk_some(ov)))) for c_, ov in split_option(x)])
+                if x.variant == 'None':
+                    st2.cells.pop(cell, None)
+                    return NONE
+                x = x.f[0]
+            return iter_next(ex, st2, itref, mk_loop(acc + (x,)))
         return loop
     return iter_next(ex, st, itref, mk_loop(()))
 
